@@ -239,7 +239,7 @@ def run_client_hello(conn, settings, make_server_wire, session=None,
         raise Cut("tls13", a)
         yield 0
 
-    def cut_resume(sess, serverHello, clientRandom, nextProto, stg):
+    def cut_resume(sess, serverHello, *a, **k):
         raise Cut("tls12-continues", serverHello)
         yield 0
     conn._clientTLS13Handshake = cut13
@@ -255,10 +255,10 @@ def run_client_hello(conn, settings, make_server_wire, session=None,
                 conn.sock.socket.block_when_empty = False
             yield r
     conn._clientSendClientHello = send_hello
-    anon = None if cert_params else True
+    anon = None if cert_params is not None else True
     try:
         for r in conn._handshakeClientAsyncHelper(
-                None, cert_params if cert_params else None, anon, session,
+                None, cert_params, anon, session,
                 settings, serverName, None, False, alpn):
             if isinstance(r, int) and not isinstance(r, bool) and r in (0, 1):
                 raise AssertionError("would-block in client hello driver")
